@@ -328,6 +328,8 @@ class ConstFold:
                 return "a1b2c3d4"
             if nm == "builtins.str":
                 return str(self.ev(e.args[0]))
+            if nm == "glob.escape" and len(e.args) == 1:
+                return self.ev(e.args[0])          # the stand-in location has no magic characters
             if nm == "os.path.join":
                 return os.path.join(*[self.ev(a) for a in e.args])
             if nm == "os.path.dirname":
